@@ -95,6 +95,9 @@ def parse(out, rc, secs):
             r['failed'].append({'check': name, 'description': desc, 'location': loc})
         if '.cover.' in name:
             r['cover'] = (r['cover'] or status == 'SATISFIED')
+    if not r['failed']:
+        for m in re.finditer(r'Failed Checks: (.*)\n\s*File: "(.*?)", line (\d+), in (.*)', out):
+            r['failed'].append({'check': 'failed-check', 'description': m.group(1).strip(), 'location': f'{os.path.basename(m.group(2))}:{m.group(3)} in {m.group(4).strip()}'})
     if 'VERIFICATION:- SUCCESSFUL' in out:
         r['status'] = 'success'
     elif 'VERIFICATION:- FAILED' in out:
